@@ -188,6 +188,9 @@ class MessageSigner(object):
         if isinstance(key_or_address, str):
             # they gave us a private key or a public key already loaded.
             key = self._network.parse.address(key_or_address)
+            if key is None:
+                # not an address of this network: the signature is not one of it
+                return False
         else:
             key = key_or_address
 
